@@ -509,6 +509,8 @@ fn child_each(item: &serde_json::Value) -> Vec<String> {
     };
     let mut out = Vec::new();
     out.push(format!("K check {env_wire}"));
+    // (C01 on the VM model) the static hypotheses of C01 on the same listings: statistics + oracle
+    out.push(format!("K check01 {env_wire}"));
     for (ei, entry) in set.entries.iter().enumerate() {
         out.push(format!("Q {ei} {}", request(&env_wire, entry, &set.runs)));
         for (ri, run) in set.runs.iter().enumerate() {
@@ -782,8 +784,31 @@ fn main() {
     };
     let mut model_of: BTreeMap<(usize, usize, usize), String> = BTreeMap::new();
     let mut checker_refusals: Vec<String> = Vec::new();
+    // set → (c01StaticCheck holds and no listing applies `safe`, which of < > " ' occur in WriteText text)
+    let mut c01_of: BTreeMap<usize, (bool, String)> = BTreeMap::new();
     for (k, a) in answers.iter().enumerate() {
         let (si, ei) = req_of[k];
+        if ei == usize::MAX && requests[k].starts_with("check01 ") {
+            // `c01 <static> <uses safe> <chunks> <with body> <refused by bodyCheck> <literal specials>`:
+            // statistics only, a refusal is not a violation (Model/VmBodyCheck.lean is conservative)
+            let f: Vec<&str> = a.split(' ').collect();
+            if f.len() == 7 && f[0] == "c01" {
+                let num = |x: &str| x.parse::<u64>().unwrap_or(0);
+                report.count(if f[1] == "t" { "c01static.sets_passing" } else { "c01static.sets_not_passing" });
+                if f[2] == "t" {
+                    report.count("c01static.sets_using_safe");
+                }
+                report.count_n("c01static.chunks_with_body_component", num(f[4]));
+                report.count_n("c01static.chunks_refused_by_bodyCheck", num(f[5]));
+                if num(f[5]) > 0 && report.notes.len() < 8 {
+                    report.notes.push(format!("bodyCheck (Model/VmBodyCheck.lean) refused a real chunk (statistics, not a violation): {}", format!("{:?}", sets[si].templates).chars().take(300).collect::<String>()));
+                }
+                c01_of.insert(si, (f[1] == "t" && f[2] == "f", f[6].to_string()));
+            } else {
+                report.count("c01static.bad_answer");
+            }
+            continue;
+        }
         if ei == usize::MAX && !a.starts_with("bad-request") {
             // translation validation: the verified checker on every real chunk of the set
             let mut it = a.split(' ');
@@ -819,6 +844,39 @@ fn main() {
     let mut mismatches: Vec<&Obs> = Vec::new();
     let mut nontrivial = std::collections::HashSet::new();
     let mut sample_count: BTreeMap<String, u64> = BTreeMap::new();
+    // direct oracle of C01Vm_static_check on the REAL output (independent of the model's run): when
+    // the listings pass c01StaticCheck, none applies `safe` and the context holds no pre-marked safe
+    // string, every < > " ' of the real text occurs in WriteText text of the listings
+    let mut c01_failures: Vec<(usize, usize, usize, char)> = Vec::new();
+    for o in &obs {
+        let Some((ok, lits)) = c01_of.get(&o.set) else { continue };
+        let run = &sets[o.set].runs[o.run];
+        let premarked = run.ctx.iter().chain(run.global.iter()).any(|(_, w)| w.contains("S:"));
+        if !*ok || premarked {
+            report.count("c01static.oracle_not_applicable");
+            continue;
+        }
+        let Some(h) = o.real.strip_prefix("ok ") else { continue };
+        let bytes = unhex(h).unwrap_or_default();
+        report.oracle_checks += 1;
+        report.count("c01static.oracle_checked_outputs");
+        for (b, letter) in [(b'<', 'L'), (b'>', 'G'), (b'"', 'Q'), (b'\'', 'A')] {
+            if bytes.contains(&b) && !lits.contains(letter) {
+                report.oracle_failures += 1;
+                c01_failures.push((o.set, o.entry, o.run, b as char));
+                break;
+            }
+        }
+    }
+    for (si, ei, ri, ch) in c01_failures.iter().take(3) {
+        let set = &sets[*si];
+        let real = obs.iter().find(|o| o.set == *si && o.entry == *ei && o.run == *ri).map(|o| o.real.clone()).unwrap_or_default();
+        report.violation(
+            "property",
+            format!("C01 (static hypotheses hold): the real output contains {ch:?} which no WriteText of the listings contains — {:?} entry {:?} ctx {:?}: {}", set.templates, set.entries[*ei], set.runs[*ri].ctx, show(&real)),
+            replay_json(set, *ei, &set.runs[*ri], &real, "-", "c01-static-oracle"),
+        );
+    }
     for o in &obs {
         let Some(m) = model_of.get(&(o.set, o.entry, o.run)) else { continue };
         if !comparable(m) {
